@@ -688,11 +688,18 @@ def render_item(repo_root, d, log, cache):
             splices.append((loops[k][1], '\n' + txt.rstrip() + '\n'))
         want = max(d.loops) + 1
     for (where, pat, txt) in d.inserts:
+        pick = None
+        mpick = re.match(r'^(.*)#(\d+)$', pat, re.S)
+        if mpick:
+            pat, pick = mpick.group(1), int(mpick.group(2))
         rx = ws_pattern(pat)
         ms = list(rx.finditer(body))
-        if len(ms) != 1:
+        if pick is None and len(ms) != 1:
             raise LostAnchor(f'{what}: anchor `{pat}` matches {len(ms)} times')
-        off = ms[0].start() if where == 'before' else ms[0].end()
+        if pick is not None and pick >= len(ms):
+            raise LostAnchor(f'{what}: anchor `{pat}` occurrence {pick} not found ({len(ms)} matches)')
+        mm_ = ms[pick or 0]
+        off = mm_.start() if where == 'before' else mm_.end()
         splices.append((off, '\n' + txt.rstrip() + '\n'))
     for off, txt in sorted(splices, key=lambda x: -x[0]):
         body = body[:off] + txt + body[off:]
